@@ -87,10 +87,11 @@ struct Host {
   int arenaMode = 0; uint64_t arenaSeed = 0;     // C12 library level: backing store of the Processor (0 zero, 1 ones, 2 prng, 3 pointerish, 4 stale)
   unsigned envPad = 0; std::string lang;
   int err = 0;                                   // errno left behind by whatever ran before
-  bool pristine() const { return heapMode == sim::heap::ZERO && stackMode == sim::STACK_ZERO && arenaMode == 0 && !padSeed && !baseShift && !shift && !envPad && lang.empty() && !err; }
+  uint64_t clock = 0; int pid = 0;               // what the clock and getpid() say (0: the pristine 1000000000 / 4242)
+  bool pristine() const { return heapMode == sim::heap::ZERO && stackMode == sim::STACK_ZERO && arenaMode == 0 && !padSeed && !baseShift && !shift && !envPad && lang.empty() && !err && !clock && !pid; }
   std::string str() const {
     return std::string("heap=") + sim::heap::modeName(heapMode) + (padSeed ? "+pad" : "") + (shuffle ? "+shuffle" : "") + (baseShift ? "+shift" : "") +
-           " stack=" + std::to_string(stackMode) + (shift ? "+shift" : "") + " arena=" + std::to_string(arenaMode) + (envPad ? " env" : "") + (err ? " errno=" + std::to_string(err) : "");
+           " stack=" + std::to_string(stackMode) + (shift ? "+shift" : "") + " arena=" + std::to_string(arenaMode) + (envPad ? " env" : "") + (err ? " errno=" + std::to_string(err) : "") + (clock ? " clock" : "");
   }
 };
 Host hostFrom(const Json &op) {
@@ -108,6 +109,7 @@ Host hostFrom(const Json &op) {
   h.arenaMode = (int)(op.getU64("arena") % 5); h.arenaSeed = op.getU64("arena_seed");
   h.envPad = (unsigned)(op.getU64("env_pad") % 4096); h.lang = op.getStr("lang");
   h.err = (int)(op.getU64("errno") % 134);
+  h.clock = op.getU64("clock"); h.pid = (int)(op.getU64("pid") % 4000000);
   return h;
 }
 Json hostToJson(Json op, const Host &h) {
@@ -121,6 +123,8 @@ Json hostToJson(Json op, const Host &h) {
   if (h.envPad) op["env_pad"] = h.envPad;
   if (!h.lang.empty()) op["lang"] = h.lang;
   if (h.err) op["errno"] = h.err;
+  if (h.clock) op["clock"] = (unsigned long long)h.clock;
+  if (h.pid) op["pid"] = h.pid;
   return op;
 }
 Host randomHost(Rng &r, bool c12) {
@@ -138,6 +142,7 @@ Host randomHost(Rng &r, bool c12) {
   if (r.chance(1, 4)) h.envPad = 1 + (unsigned)r.below(4000);
   if (r.chance(1, 4)) { static const char *l[] = {"C", "POSIX", "en_US.UTF-8", "tr_TR.UTF-8", "de_DE"}; h.lang = l[r.below(5)]; }
   if (r.chance(1, 3)) { static const int e[] = {ERANGE, EINTR, ENOENT, EAGAIN, EINVAL, ENOMEM}; h.err = e[r.below(6)]; }
+  if (r.chance(1, 2)) { h.clock = 946684800 + r.below(2000000000); h.pid = 2 + (int)r.below(300000); }
   return h;
 }
 void applyEnv(const Host &h) {
@@ -156,9 +161,11 @@ sim::heap::Config heapCfg(const Host &h) {
 sim::Trapped underHost(const Host &h, const std::function<int()> &f) {
   applyEnv(h);
   sim::Trapped t;
+  sim::simclock::activate(h.clock ? h.clock : 1000000000ull, h.pid ? h.pid : 4242);
   sim::heap::begin(heapCfg(h));
   sim::callOnDirtyStack(h.stackMode, h.stackBytes, h.stackSeed, h.shift, [&]() { t = sim::runTrapped([&]() { errno = h.err; return f(); }, 90); });
   sim::heap::end();
+  sim::simclock::deactivate();
   return t;
 }
 
@@ -428,7 +435,7 @@ public:
   }
   void simplifyHost(const Json &op, std::vector<Json> &out) {
     // Towards the pristine host state, one dimension at a time.
-    for (const char *k : {"pad_seed", "base_shift", "shuffle", "shift", "env_pad", "lang", "arena", "stack", "errno"}) {
+    for (const char *k : {"pad_seed", "base_shift", "shuffle", "shift", "env_pad", "lang", "arena", "stack", "errno", "clock", "pid"}) {
       if (!op.has(k)) continue;
       Json c = op; c.erase(k);
       if (std::string(k) == "stack") c["stack"] = 1;
@@ -829,6 +836,8 @@ public:
       o.count("fault.stack_mode_" + std::to_string(h.stackMode)); if (h.shift) o.count("fault.stack_shift");
       if (h.envPad || !h.lang.empty()) o.count("fault.environment");
       if (h.err) o.count("fault.errno_left_behind");
+      if (h.clock) o.count("fault.clock_and_pid_differ");
+      if (sim::simclock::readings()) o.count("probe.tool_read_the_clock_or_pid");
       if (pos > 0) o.count("fault.history_position_gt0");
       if (sim::heap::counters.recycled) o.count("probe.recycled_heap_block_reused");
       if (sim::heap::counters.overflowToMalloc) o.count("probe.arena_overflow_to_malloc");
